@@ -1164,7 +1164,27 @@ func (w *SrvWorld) drainGrantAction() *Action {
 	const target = int64(1 << 28)
 	// only what is needed: a sender that stays parked although both of its windows are open is the defect the drain
 	// phase is there to expose, and a grant it did not need would wake it up
-	if avail := w.connGranted - w.connRecv; avail <= 0 {
+	// a response whose whole body has arrived and which lacks nothing but END_STREAM needs no window: an empty DATA
+	// frame costs none
+	needs := func(l *laneState) bool {
+		if l.id == 0 || l.lane.Resp == nil {
+			return false
+		}
+		ps := w.Streams[l.id]
+		if ps != nil && (ps.EndStreams > 0 || len(ps.RST) > 0) {
+			return false
+		}
+		r := l.lane.Resp
+		if r.ErrAt >= 0 || r.Panic || ps == nil {
+			return true
+		}
+		return ps.RecvBytes < int64(r.BodyLen)
+	}
+	anyNeeds := false
+	for _, l := range w.lanes {
+		anyNeeds = anyNeeds || needs(l)
+	}
+	if avail := w.connGranted - w.connRecv; avail <= 0 && anyNeeds {
 		inc := target - avail
 		return &Action{Name: fmt.Sprintf("drain-grant conn +%d", inc), Env: true, Run: func() {
 			w.connGranted += inc
@@ -1172,13 +1192,10 @@ func (w *SrvWorld) drainGrantAction() *Action {
 		}}
 	}
 	for _, l := range w.lanes {
-		if l.id == 0 || l.lane.Resp == nil {
+		if !needs(l) {
 			continue
 		}
 		ps := w.Streams[l.id]
-		if ps != nil && (ps.EndStreams > 0 || len(ps.RST) > 0) {
-			continue
-		}
 		var recv int64
 		if ps != nil {
 			recv = ps.RecvBytes
